@@ -119,6 +119,8 @@ def segOf (S : Schema) (top : Bool) (before : List DNode) (n : DNode) : Bytes :=
 def Cx.pathOf (cx : Cx) (S : Schema) (before : List DNode) (n : DNode) : Bytes :=
   cx.path ++ segOf S cx.parent.isNone before n
 
+def clearNew (n : DNode) : DNode := n.setFlags { n.flags with new := false }
+
 /-- `LYD_DUP_WITH_PARENTS` copy of a parent: no children except the keys of a list -/
 def shallow (S : Schema) : DNode → DNode
   | .inner s f m ks => .inner s f m (keysOf S ks)
@@ -126,6 +128,13 @@ def shallow (S : Schema) : DNode → DNode
 
 def Cx.descend (cx : Cx) (S : Schema) (before : List DNode) (n : DNode) : Cx :=
   { path := cx.pathOf S before n, anc := cx.anc ++ [shallow S n], parent := some n.sid }
+
+/-- the context once `lyd_validate_new` has passed the keys of the parent (they come first): their `LYD_NEW` is gone, which
+is what a later `LYD_DUP_WITH_PARENTS | LYD_DUP_WITH_FLAGS` copy of the parent shows -/
+def Cx.keysOld (cx : Cx) : Cx :=
+  match cx.anc.getLast? with
+  | some p => { cx with anc := cx.anc.dropLast ++ [p.setKids (p.kids.map clearNew)] }
+  | none => cx
 
 /-- `lysc_path(node, LYSC_PATH_LOG)`: every schema ancestor (choice and case too), module name on the first step -/
 def schemaPath (S : Schema) (sid : Nat) : Bytes :=
@@ -149,8 +158,6 @@ def hasInst (sibs : List DNode) (sid : Nat) : Bool := sibs.any (·.sid == sid)
 
 /-- data of a case / choice among the siblings (`lys_getnext_data` over the flattened schema children) -/
 def inSids (ds : List Nat) (n : DNode) : Bool := ds.contains n.sid
-
-def clearNew (n : DNode) : DNode := n.setFlags { n.flags with new := false }
 
 /-- `lysc_is_np_cont` on the data node's schema -/
 def isNpContD (S : Schema) (n : DNode) : Bool := S.isNpCont n.sid
